@@ -1454,3 +1454,32 @@ Proof.
     rewrite (NoDup_nodup_str _ (headers_nodup _ F2 F3 Hnd)). eexists. reflexivity. }
   destruct Hu as [cells Hu]. exists cells. split; [exact Hu|]. apply (row_roundtrip root v targets cells Hd Hu).
 Qed.
+
+(* the bookkeeping of row_roundtrip, exported for the context-remap variant *)
+Lemma root_written fields h2f f2h fs targets cells :
+  row_dom (TModel fields h2f f2h) (VModel fs) targets = true ->
+  unparse_row (TModel fields h2f f2h) (VModel fs) targets [] = Ok cells ->
+  exists gs,
+    cells = cells_of (concat gs)
+    /\ unparse_fields (matches_headers targets) f2h [] fields fs = Ok gs
+    /\ dom_fields (matches_headers targets) h2f f2h [] fields fs = true
+    /\ nodup_names fields = true
+    /\ NoDup (map fst cells)
+    /\ fill (TModel fields h2f f2h) (concat gs) (ODict []) = Ok (ODict (enc_fields fields fs))
+    /\ paths_nonempty (concat gs) /\ names_ok (concat gs).
+Proof.
+  intros Hd Hu. unfold row_dom in Hd. apply andb_true_iff in Hd as [_ Hd].
+  set (tgt := matches_headers targets) in *.
+  unfold unparse_row in Hu. apply bind_ok_inv in Hu as (cs & Hcs & Hu).
+  rewrite (unparse_rec_ext tgt (matches_headers []) noexc matches_no_headers) in Hcs.
+  fold (cells_of cs) in Hu. destruct (nodup_str (map fst (cells_of cs))) eqn:Hnd; [|discriminate].
+  injection Hu as <-. apply nodup_str_NoDup in Hnd.
+  rewrite unparse_rec_unfold in Hcs. rewrite dom_unfold in Hd. cbn [is_basic_ty orb] in Hcs, Hd.
+  replace (tgt []) with false in Hcs, Hd by reflexivity.
+  apply rmap_ok_inv in Hcs as (gs & Hgs & ->).
+  apply andb_true_iff in Hd as [Hnames Hd]. pose proof (nodup_str_NoDup _ Hnames) as Hnames'.
+  destruct (fill_model_fields tgt fields h2f f2h [] Hnames' fields
+              (proj2 (Forall_forall _ _) (fun f _ => puts_enc tgt (f_ty f))) fs [] gs
+              (fun f H => H) Hnames' (fun f _ => eq_refl) Hd Hgs) as (F1 & F2 & F3).
+  exists gs. repeat split; try assumption; [apply paths_nonempty_concat, F2|apply names_ok_concat, F3].
+Qed.
